@@ -615,7 +615,7 @@ Definition dom_monad (f : string) (a : val) : bool :=
   if fis f "eval_monad_size" then (match a with VY _ | VU => false | _ => true end) else
   if fis f "eval_monad_shape" then (match a with VU => false | _ => true end) else
   if fis f "eval_monad_transpose" then (match a with VL [] => true | VL _ => (match rshape a with Some [_; S _] => true | _ => false end) | _ => false end) else
-  if fis f "eval_monad_not" then negb (is_arr a) || is_empty a else
+  if fis f "eval_monad_not" then (match a with VU => false | _ => negb (is_arr a) || is_empty a end) else
   if fis f "eval_monad_grade_up" then (match a with VS _ => true | VL _ => is_num_vector a | _ => false end) else
   if fis f "eval_monad_grade_down" then
     (match a with VS s => no_dups Z.eqb s | VL l => is_num_vector a && no_dups num_eqb l | _ => false end) else
